@@ -123,7 +123,7 @@ def check(cx):
 
     # ---- C19.3 one comparator everywhere ------------------------------------------------------------------
     r3 = cx.rule("C19.3", "SIB: ORDER BY, DISTINCT, GROUP BY, IN-lists, joins and the B+tree key comparator resolve to the "
-                 "DataType/DataTypeRef impls of PartialOrd/PartialEq/Hash (one notion of order and equality)", floor=5)
+                 "DataType/DataTypeRef impls of PartialOrd/PartialEq/Hash (one notion of order and equality); the key comparator compares whole keys", floor=6)
     ORD = {"<types::DataType as std::cmp::PartialOrd>::partial_cmp", "<types::DataTypeRef<'_> as std::cmp::PartialOrd>::partial_cmp"}
     EQH = {"<types::DataType as std::cmp::PartialEq>::eq", "<types::DataType as std::hash::Hash>::hash"}
     users = [
@@ -147,6 +147,16 @@ def check(cx):
                     for f in fs for c in f.calls())
         cx.verdict(bool(hit) or keyed, r3, name, fs[0].where(), "uses %s" % (sorted(hit) or "std collection keyed by DataType"),
                    "%s no longer compares through the DataType impls (own comparison logic?)" % name)
+
+    # the tree's key comparator sees the whole stored key: no bounded reassembly of an overflow cell
+    cmp_fns = [g for g in p.fns.values() if (g.root or g.id).startswith("tree::cell_ops::") and "Comparator" in (g.root or g.id)]
+    bounded = sorted({"%s in %s" % (c.callee.rsplit("::", 1)[-1], (g.root or g.id).rsplit("::", 1)[-1]) for g in cmp_fns for c in g.calls()
+                      if "Reassembler" in c.callee and c.callee.rsplit("::", 1)[-1] not in ("new", "reassemble", "into_boxed_slice", "as_slice")
+                      and "max_size" in c.callee.rsplit("::", 1)[-1]})
+    cx.verdict(bool(cmp_fns) and not bounded, r3, "btree-keys:whole-key", cmp_fns[0].where() if cmp_fns else "",
+               "key comparators reassemble overflow cells completely (%d functions)" % len(cmp_fns),
+               "the tree's key comparator reassembles an overflow cell with a size bound (%s): a stored key longer than the probe is cut in the "
+               "middle, the comparison fails or orders wrongly, and the outcome depends on page size and min_keys (where the cell spills)" % ", ".join(bounded))
 
     # ---- C19.4 float -> integer casts --------------------------------------------------------------------------
     r4 = cx.rule("C19.4", "FLOW: for every `impl TypeCast<IntN|UIntN> for FloatM` the float-to-integer conversion reachable from "
